@@ -75,6 +75,7 @@ def run(ctx, rep):
     rep.floor("C16.O1 matches on as_rule() with a panicking fall-through", counts["O1"], 15)
     rep.floor("C16.O2 unwrapped next()/last()", counts["O2"], 55)
     rep.floor("C16.O3 unwrapped single()", counts["O3"], 5)
+    loop_boundary(F, rep)
     rep.extra["analysis_rounds"] = fl.rounds
     rep.extra["hand_assembled_option_unwraps_counted_not_judged"] = getattr(fl, "uncounted", 0)
     # K4 panics outside the clause: counted
@@ -85,3 +86,63 @@ def run(ctx, rep):
             if re.search(r"::(unwrap|expect)$", nm) or "core::panicking::" in nm:
                 n4 += 1
     rep.extra["panic_sites_in_crate_compiler_total"] = n4
+
+
+def loop_boundary(F, rep):
+    """`break` / `continue` are accepted only inside a loop of the *same function*: the scope scan of scopes_since_loop must stop at a
+    function scope.  Otherwise a `break` in a closure declared inside a loop is accepted, its placeholder is never resolved and code
+    generation dies in `unreachable!("break/continue that was not fulfilled")`."""
+    import rules
+    from mir import op_local
+    f = F.fn("compiler::parser::AssocFileData::scopes_since_loop")
+    if f is None:
+        raise AnchorMissing("AssocFileData::scopes_since_loop")
+    bodies = [f] + F.closures_of(f)
+    IS_LOOP = "compiler::scope::Scope::is_loop"
+    IS_FN = "compiler::scope::Scope::is_function"
+    loops = [(g, c) for g in bodies for c in g.calls_to(IS_LOOP)]
+    fns = [(g, c) for g in bodies for c in g.calls_to(IS_FN)]
+    key = "C16.loop-boundary|scopes_since_loop"
+    what = "scopes_since_loop stops scanning at a function scope (break / continue cannot target a loop outside the enclosing function)"
+    if not loops:
+        raise AnchorMissing("Scope::is_loop in scopes_since_loop")
+    if not fns:
+        rep.ob("C16.loop-boundary", what, "violated", "Scope::is_function is not consulted while looking for the enclosing loop", f.span, fn=f.path, key=key)
+        return
+    if any(g is not f for g, _ in loops + fns):
+        rep.ob("C16.loop-boundary", what, "undecided", "the scan is written with closures; shape not recognised", f.span, fn=f.path, key=key)
+        rep.floor("C16.loop-boundary decided", 0, 1)
+        return
+    # the scan can move on to the next scope only across the false edge of is_function
+    heads = {c.bb for c in f.calls() if c.matches("core::iter::traits::iterator::Iterator::next")}
+    removed = set()
+    for g, c in fns:
+        der = f.derived([c.dst["l"]])
+        for bb, t_t, f_t, pol in rules.bool_switches(f, der):
+            if pol is None:
+                continue
+            removed.add((bb, f_t if pol else t_t))
+    ok = bool(removed) and bool(heads)
+    for g, c in loops:
+        der = f.derived([c.dst["l"]])
+        for bb, t_t, f_t, pol in rules.bool_switches(f, der):
+            if pol is None:
+                continue
+            not_loop = f_t if pol else t_t
+            reach = f.reachable(not_loop, removed_edges=removed)
+            if reach & heads:
+                ok = False
+    # and the function-scope edge must not lead to an Ok return
+    for g, c in fns:
+        der = f.derived([c.dst["l"]])
+        for bb, t_t, f_t, pol in rules.bool_switches(f, der):
+            if pol is None:
+                continue
+            is_fn_edge = t_t if pol else f_t
+            reach = f.reachable(is_fn_edge, removed_blocks=heads)
+            if any(b in reach for b in rules.ok_return_blocks(f)):
+                ok = False
+    rep.ob("C16.loop-boundary", what, "ok" if ok else "violated",
+           "" if ok else "the scan continues past a function scope (or returns Ok at one): a `break` in a closure declared inside a loop is accepted and never resolved",
+           f.span, fn=f.path, key=key)
+    rep.floor("C16.loop-boundary decided", 1, 1)
